@@ -46,9 +46,41 @@ fn k_cstr(p: &Path) -> std::ffi::CString {
 }
 
 /// The operation with plain system calls under the kernel mount `m` (same decomposition and modes as `apply`).
-fn k_apply(m: &Path, op: &Op) -> Result<(), i32> {
+fn k_apply(m: &Path, op: &Op, held: &mut BTreeMap<String, i32>) -> Result<(), i32> {
     let rc = |r: i32| if r < 0 { Err(k_errno()) } else { Ok(()) };
+    if let Op::Unlink(p) = op {
+        if let Some(fd) = held.remove(p) {
+            unsafe { libc::close(fd) };
+        }
+    }
     match op {
+        Op::OpenHold(p) => {
+            let md = fs::symlink_metadata(m.join(p)).map_err(|e| e.raw_os_error().unwrap_or(libc::EIO))?;
+            if md.is_dir() {
+                return Err(libc::EISDIR);
+            }
+            if !md.is_file() {
+                return Err(libc::EINVAL);
+            }
+            if !held.contains_key(p) {
+                let fd = unsafe { libc::open(k_cstr(&m.join(p)).as_ptr(), libc::O_RDONLY | libc::O_NOFOLLOW) };
+                if fd < 0 {
+                    return Err(k_errno());
+                }
+                held.insert(p.clone(), fd);
+            }
+            Ok(())
+        }
+        Op::HeldChmod(p, perm) => match held.get(p) {
+            Some(fd) => rc(unsafe { libc::fchmod(*fd, *perm) }),
+            None => k_apply(m, &Op::Chmod(p.clone(), *perm), held),
+        },
+        Op::CloseHeld(p) => {
+            if let Some(fd) = held.remove(p) {
+                unsafe { libc::close(fd) };
+            }
+            Ok(())
+        }
         Op::Create(p) => {
             let c = k_cstr(&m.join(p));
             let fd = unsafe { libc::open(c.as_ptr(), libc::O_RDWR | libc::O_CREAT | libc::O_EXCL, 0o644) };
@@ -213,9 +245,11 @@ pub fn run_kernel(args: &Args, rep: &mut Report) {
         };
         disagreement = disagreement.or_else(|| compare(&model, "initial view"));
         let nops = if disagreement.is_some() { 0 } else { r.range(10, if args.tier == "thorough" { 60 } else { 30 }) };
+        let mut kheld: BTreeMap<String, i32> = BTreeMap::new();
         for step in 0..nops {
-            let op = gen_op(&mut r, &model);
-            let got = k_apply(&mnt, &op).err().unwrap_or(0);
+            let held_paths: Vec<String> = kheld.keys().cloned().collect();
+            let op = gen_op(&mut r, &model, &held_paths);
+            let got = k_apply(&mnt, &op, &mut kheld).err().unwrap_or(0);
             let mut m2 = model.clone();
             let want = apply_model(&mut m2, &op).err().unwrap_or(0);
             trace.push(format!("{:?} -> kernel {} (reference: {})", op, errclass(got), errclass(want)));
@@ -223,7 +257,7 @@ pub fn run_kernel(args: &Args, rep: &mut Report) {
             rep.count("kernel:operations-compared", 1);
             rep.count(&format!("kernel:op:{}:{}", format!("{:?}", op).split('(').next().unwrap_or(""), errclass(got)), 1);
             if no_upper {
-                if got == 0 {
+                if got == 0 && !matches!(op, Op::OpenHold(_) | Op::CloseHeld(_)) {
                     disagreement = Some(("model-vs-kernel:lower-only-modified".into(), format!("`{:?}` succeeded on a lower-only kernel overlay", op)));
                     break;
                 }
@@ -263,6 +297,9 @@ pub fn run_kernel(args: &Args, rep: &mut Report) {
                 break;
             }
             rep.count("kernel:views-compared", 1);
+        }
+        for fd in kheld.values() {
+            unsafe { libc::close(*fd) };
         }
         unsafe { libc::umount2(k_cstr(&mnt).as_ptr(), libc::MNT_DETACH) };
         rep.count("kernel:universes", 1);
